@@ -123,6 +123,9 @@ def _ascii_lower(s):
     return "".join(chr(ord(c) + 32) if "A" <= c <= "Z" else c for c in s)
 
 
+_BASELINE = {}
+
+
 def check_command(case):
     from insights.core import CommandParser
     from insights.core.context import Context
@@ -136,8 +139,13 @@ def check_command(case):
         def parse_content(self, content):
             seen.append(content)
 
-    cur_single = list(getattr(CommandParser, "_CommandParser__bad_single_lines", DOC_SINGLE))
-    cur_multi = list(getattr(CommandParser, "_CommandParser__bad_lines", DOC_MULTI))
+    # the class-wide phrase lists as they are before any parser of this process was given extra
+    # phrases (read once per process): extra_bad_lines belong to the one parser they are passed to
+    if "single" not in _BASELINE:
+        _BASELINE["single"] = list(getattr(CommandParser, "_CommandParser__bad_single_lines", DOC_SINGLE))
+        _BASELINE["multi"] = list(getattr(CommandParser, "_CommandParser__bad_lines", DOC_MULTI))
+    cur_single = list(_BASELINE["single"])
+    cur_multi = list(_BASELINE["multi"])
     ex = list(extra or [])
 
     def hit(phrases, lower):
@@ -177,6 +185,29 @@ def check_command(case):
         if obj is None:
             raise Violation("no parser object although nothing was raised")
     labels = ["rejected" if rejected else "accepted", "lines=%s" % ("0" if not lines else "1" if len(lines) == 1 else "n")]
+    # a second, different parser created afterwards without extra phrases: output that merely contains
+    # one of the first parser's extra phrases is ordinary output for it and must reach it unchanged
+    if ex:
+        for form in ("single", "multi"):
+            probe = ["zq " + ex[0] + " zq"] + (["second zq line"] if form == "multi" else [])
+            base_list = cur_single if form == "single" else cur_multi
+            if any(ph in l.lower() for ph in base_list for l in probe):
+                continue
+            seen2 = []
+
+            class Q(CommandParser):
+                def parse_content(self, content):
+                    seen2.append(content)
+            try:
+                Q(Context(content=list(probe), path="/usr/bin/other_command"))
+            except ContentException:
+                raise Violation("after a parser was created with extra_bad_lines=%r, a different command parser "
+                                "without extra phrases rejects the ordinary output %r" % (ex, probe),
+                                first_lines=lines, extra=extra)
+            if seen2 != [probe]:
+                raise Violation("parse_content of the second parser did not receive its output unchanged",
+                                received=seen2, probe=probe)
+            labels.append("followup-parser-unaffected")
     nt = False
     for p in must:
         for l in lines:
